@@ -24,7 +24,7 @@ BUDGETS = {'C14': (45, 900, 20)}
 LEVELS = {'C14': 'exploration'}
 PROBES = {'C14': ['reopen', 'add_duplicate_existing', 'add_duplicate_in_batch', 'add_heterogeneous_batch', 'check_out_hit',
                   'check_out_notfound', 'check_out_level', 'check_in_increment', 'check_in_missing_url', 'release_with_in_progress',
-                  'remove_existing', 'readd_after_remove', 'visits', 'wrapper', 'unparseable_url', 'non_ascii_url', 'update_one']}
+                  'remove_existing', 'readd_after_remove', 'visits', 'wrapper', 'unparseable_url', 'non_ascii_url', 'update_one', 'check_in_held_url', 'check_in_after_remove_and_readd']}
 INFO = {'C14': {
     'rule': 'history = 1..40 operations drawn from add_many (batches with internal duplicates, with/without properties/data, '
             'odd URL strings), check_out(status[,level]), check_in, update_one, release, remove_many, add_visits/get_revisit_id, '
@@ -113,6 +113,7 @@ def run(tape, prop, tier):
     model = ModelTable()
     history = []
     removed = set()
+    held = []
     kinds = []
     n = tape.between(1, 40 if tier == 'thorough' else 25, 'nops')
     try:
@@ -131,6 +132,9 @@ def run(tape, prop, tier):
                     bad = False
                     for _ in range(k):
                         url = gen_url(tape)
+                        if removed and tape.chance(1, 4, 'add.removed'):
+                            rl = sorted(removed)
+                            url = rl[tape.draw(len(rl), 'add.removed.i')]        # add a URL again that was removed earlier
                         if mbatch and tape.chance(1, 5, 'add.dup'):
                             url = mbatch[tape.draw(len(mbatch), 'add.dup.i')][0]
                         props, pd = gen_props(tape, None)
@@ -193,6 +197,8 @@ def run(tape, prop, tier):
                             if (rec.status.value, rec.try_count, rec.level) not in ((st, mrow['try_count'], mrow['level']), ('in_progress', mrow['try_count'], mrow['level'])):
                                 r.violate(P, 'check-out', 'returned-record-fields', 'step %d: record %r vs model %r' % (step, (rec.status, rec.try_count, rec.level), mrow))
                             model.check_out(rec.url)
+                            if rec.url not in held:
+                                held.append(rec.url)
                 elif op == 'check_in':
                     pool = list(model.rows) or ['http://a.test/p0']
                     if tape.chance(1, 8, 'ci.missing'):
@@ -201,7 +207,14 @@ def run(tape, prop, tier):
                     else:
                         inprog = [u for u in pool if model.rows.get(u, {}).get('status') == 'in_progress']
                         src = inprog if inprog and not tape.chance(1, 4, 'ci.any') else pool
+                        if held and tape.chance(1, 3, 'ci.held'):
+                            # a URL this process checked out earlier - whatever happened to its row since (removed, added
+                            # again, released): the worker holding it still checks it in
+                            src = held
+                            r.probes['check_in_held_url'] += 1
                         url = src[tape.draw(len(src), 'ci.url')]
+                        if url in removed and url in model.rows:
+                            r.probes['check_in_after_remove_and_readd'] += 1
                     st = tape.choice(('done', 'error', 'skipped', 'todo'), 'ci.status')
                     inc = not tape.chance(1, 3, 'ci.noinc')
                     res = rd = None
@@ -239,6 +252,9 @@ def run(tape, prop, tier):
                     pool = list(model.rows) + ['http://a.test/never-added']
                     k = tape.between(1, 2, 'rm.n')
                     urls = [pool[tape.draw(len(pool), 'rm.url')] for _ in range(k)]
+                    live_held = [u for u in held if u in model.rows]
+                    if live_held and tape.chance(1, 3, 'rm.held'):
+                        urls[0] = live_held[tape.draw(len(live_held), 'rm.held.i')]      # remove a URL somebody has checked out
                     if any(u in model.rows for u in urls):
                         r.probes['remove_existing'] += 1
                     removed.update(u for u in urls if u in model.rows)
